@@ -94,16 +94,18 @@ func escape(s string) string {
 	var sb strings.Builder
 	hasMapped := false
 
-	for i, r := range s {
-		if int(r) < len(escapeLookup) && escapeLookup[r] != "" {
+	// byte-wise: everything that needs escaping is ASCII, all other bytes are copied unchanged
+	for i := 0; i < len(s); i++ {
+		c := s[i]
+		if int(c) < len(escapeLookup) && escapeLookup[c] != "" {
 			if !hasMapped {
 				sb.Grow(len(s) + 5)
 				sb.WriteString(s[:i])
 				hasMapped = true
 			}
-			sb.WriteString(escapeLookup[r])
+			sb.WriteString(escapeLookup[c])
 		} else if hasMapped {
-			sb.WriteRune(r)
+			sb.WriteByte(c)
 		}
 	}
 
